@@ -6,3 +6,25 @@ uint64_t g_blk_obj, g_blk_bytes; int g_blk_state;
 uint64_t g_nalloc, g_ndealloc, g_nrealloc, g_nctor, g_nassign, g_ndtor, g_nmove, g_nbytecopy, g_ncmp;
 _Bool g_allow_elem_throw, g_allow_alloc_fail;
 uint64_t g_cmp_obj1, g_cmp_off1, g_cmp_n1, g_cmp_obj2, g_cmp_off2, g_cmp_n2; int g_cmp_kind;
+
+/* ghost state and logical variables are arbitrary at the start of every proof (statics would otherwise be zero) */
+struct vsnap nondet_vsnap(void);
+struct gsnap nondet_gsnap(void);
+static void l0_havoc(void) {
+  l0_exc = nondet_int();
+  g_cell_obj = nondet_u64(); g_cell_off = nondet_u64(); g_cell_st = nondet_int(); g_cell_val = nondet_int();
+  __CPROVER_assume(g_cell_off < (1UL << 40));
+  __CPROVER_assume(g_cell_st == ST_RAW || g_cell_st == ST_LIVE || g_cell_st == ST_MOVED);
+  g_tok_on = nondet_bool(); g_tok_obj = nondet_u64(); g_tok_off = nondet_u64(); g_tokval = nondet_int();
+  __CPROVER_assume(g_tok_off < (1UL << 40));
+  g_blk_obj = nondet_u64(); g_blk_bytes = nondet_u64(); g_blk_state = nondet_int();
+  __CPROVER_assume(g_blk_state == BLK_NONE || g_blk_state == BLK_ALLOCATED || g_blk_state == BLK_FREED);
+  g_nalloc = nondet_u64(); g_ndealloc = nondet_u64(); g_nrealloc = nondet_u64(); g_nctor = nondet_u64(); g_nassign = nondet_u64();
+  g_ndtor = nondet_u64(); g_nmove = nondet_u64(); g_nbytecopy = nondet_u64(); g_ncmp = nondet_u64();
+  /* counters far from wrap-around */
+  __CPROVER_assume(g_nalloc < (1UL << 40) && g_ndealloc < (1UL << 40) && g_nrealloc < (1UL << 40) && g_nctor < (1UL << 40) &&
+                   g_nassign < (1UL << 40) && g_ndtor < (1UL << 40) && g_nmove < (1UL << 40) && g_nbytecopy < (1UL << 40) && g_ncmp < (1UL << 40));
+  g_allow_elem_throw = nondet_bool(); g_allow_alloc_fail = nondet_bool();
+  g_N = nondet_u64();
+  pre_self = nondet_vsnap(); pre_o = nondet_vsnap(); pre_g = nondet_gsnap();
+}
